@@ -9,7 +9,7 @@ export GOFLAGS=-mod=mod GOPROXY=off GOSUMDB=off GOTOOLCHAIN=local
 cd $wt || exit 2
 demo=$(python3 -c "import json;print(json.load(open('seed_demo/meta.json'))['demo_cmd'])")
 git diff -- . ':!seed_demo' > /tmp/seed/$name.diff
-echo "== suite with change"; go test -vet=off -count=1 ./... 2>&1 | grep -v "no test files" | tail -12; suite=${PIPESTATUS[0]}
+echo "== suite with change"; go test -vet=off -count=1 $(go list ./... | grep -v seed_demo) 2>&1 | grep -v "no test files" | tail -12; suite=${PIPESTATUS[0]}
 echo "== demo with change (expect FAIL)"; (eval "$demo") > /tmp/seed/$name.with.log 2>&1; with=$?; tail -5 /tmp/seed/$name.with.log
 git stash -q -- . ':!seed_demo' 2>/dev/null || git stash -q
 echo "== demo without change (expect PASS)"; (eval "$demo") > /tmp/seed/$name.without.log 2>&1; without=$?; tail -3 /tmp/seed/$name.without.log
